@@ -81,7 +81,8 @@ func extractSymbols(journal *ast.Journal, uri protocol.DocumentURI, query string
 	for i := range journal.Transactions {
 		tx := &journal.Transactions[i]
 		payee := getPayeeOrDescription(tx)
-		if payee != "" && !seen[payee] {
+		// "DATE | note" names no payee: nothing stands where one would be listed
+		if payee != "" && tx.PayeeRange.Start.Line > 0 && !seen[payee] {
 			if matchesQuery(payee, query) {
 				seen[payee] = true
 				symbols = append(symbols, protocol.SymbolInformation{
